@@ -601,12 +601,45 @@ fn sig_target<B: BufRead>(mut i: B) -> Result<SubpacketData> {
     Ok(SubpacketData::SignatureTarget(pub_alg, hash_alg, hash))
 }
 
+/// Maximum nesting depth of Embedded Signature subpackets.
+///
+/// Legitimate signatures nest one level deep (a primary key binding signature inside a subkey
+/// binding signature). Parsing recurses once per level, so unbounded nesting in hostile input
+/// would overflow the stack.
+const MAX_EMBEDDED_SIGNATURE_DEPTH: usize = 16;
+
+thread_local! {
+    static EMBEDDED_SIGNATURE_DEPTH: std::cell::Cell<usize> = const { std::cell::Cell::new(0) };
+}
+
+/// Tracks the current nesting depth of embedded signatures while parsing.
+struct EmbeddedSignatureDepthGuard;
+
+impl EmbeddedSignatureDepthGuard {
+    fn enter() -> Result<Self> {
+        let depth = EMBEDDED_SIGNATURE_DEPTH.with(|d| d.get());
+        if depth >= MAX_EMBEDDED_SIGNATURE_DEPTH {
+            bail!("embedded signatures are nested too deeply");
+        }
+        EMBEDDED_SIGNATURE_DEPTH.with(|d| d.set(depth + 1));
+        Ok(Self)
+    }
+}
+
+impl Drop for EmbeddedSignatureDepthGuard {
+    fn drop(&mut self) {
+        EMBEDDED_SIGNATURE_DEPTH.with(|d| d.set(d.get().saturating_sub(1)));
+    }
+}
+
 /// Parse an Embedded Signature subpacket
 /// Ref: https://www.rfc-editor.org/rfc/rfc9580.html#name-embedded-signature
 fn embedded_sig<B: BufRead>(
     packet_version: PacketHeaderVersion,
     mut i: B,
 ) -> Result<SubpacketData> {
+    let _depth_guard = EmbeddedSignatureDepthGuard::enter()?;
+
     // copy to bytes, to avoid recursive type explosion
     let signature_bytes = i.rest()?.freeze();
     let header = PacketHeader::from_parts(
